@@ -37,6 +37,27 @@ pub const NAME_POOL: &[&str] = &[
 ];
 pub const FILE_POOL: &[&str] = &["out.txt", "a", "b", "c", "list.out", "dir/f", "./a", "A", "a/", " b", "/dev/stdout", "-", "/dev/stderr", "stdout"];
 
+/// User strings that spell pieces of the program the library emits (generated names, primitives, special
+/// forms, the frame separator): code that scans its own output text - to count parentheses, to find out
+/// whether something was emitted, to check that a name is bound once - trips over them.
+pub fn program_spellings() -> Vec<String> {
+    let mut v: Vec<String> = [
+        "%lf3:match:1", "%lf3:match:2", "%lf3:print:2", "%lf3:print:3", "%lf3:port:0", "%lf3:mutex:1", "%lf3:frame:2", "(%lf3:match:1 (x", "(%lf3:print:2 (lambda (s)", "(%lf3:port:0 (current-output-port))",
+        "(lipe-scan-break 0)", "(lipe-scan-break ", "(lipe-scan", "(print-relative-path)", "(print-file-fid)", "(call-with-name ", "(call-with-relative-path %lf3:print:2)", "(make-printer ", "(make-mutex)", "(with-mutex ",
+        "(use-modules (lipe) (lipe find))", "(ice-9 threads)", "(let* (", "(lambda () ", "(lambda (", "(dynamic-wind", "(define ", "(and ", "(or ", "(not ", "#t", "#f", "#t)", "(and #t", "(display ", "(format #f \"~a\" ",
+        "(current-output-port)", "(open-file ", "(close-port ", "(lipe-getopt-thread-count)", "(lipe-getopt-client-mount-path)", "(lipe-getopt-required-attrs)", "(fnmatch? ", "(streq? ", "(quotient (- ", "(logand (mode) 4095)",
+        "#\\x1e", "#\\x02", ";; ", "#| ", " |#", "#;", "'()", "`(,x)", "))", "((", ")))))", "(((((", ")(", "\")", "\" \"", "\\\")",
+    ]
+    .iter()
+    .map(|s| s.to_string())
+    .collect();
+    for n in [0, 1, 2, 3, 9, 10, 16, 255, 256] {
+        v.push(format!("%lf3:match:{}", n));
+        v.push(format!("(%lf3:print:{} ", n));
+    }
+    v
+}
+
 /// Ways people write numbers and quantities that are NOT plain decimal digits plus one documented unit
 /// letter: fractions, separators, exponents, radix prefixes, doubled signs, SI / IEC / word units, non-ASCII
 /// digits. `{}` stands for the digits. Every one of them is outside the argument languages (C05) and would
@@ -696,6 +717,7 @@ pub fn placeholder_family() -> Vec<String> {
             v.push(format!("{}{}{}", a, n, b));
         }
     }
+    v.extend(program_spellings());
     v
 }
 
